@@ -8,13 +8,22 @@ package verifc07
 // ResourceManager, every call and every execution of a user function stamped by one global atomic
 // counter. One section = one concurrent run; one line = one call:
 //
-//	call id=<n> g=<goroutine> key=<k> ex=<0|1> pre=<n> yield=<n> err=<0|1> hold=<0|1> [panic=1]
-//	   => inv=<stamp> ret=<stamp> val=<id|nil> fresh=<0|1|-> err=<id|-> fs=<stamp|-> fe=<stamp|-> runs=<n> stuck=<0|1> [panic=1]
+//	call id=<n> g=<goroutine> key=<k> ex=<0|1> pre=<n> yield=<n> err=<0|1> hold=<0|1> [panic=1] [pk=<1|2|3>] [ek=<1..5>] [nilv=1] [ep=<0..3>] [cx=<0..2>]
+//	   => inv=<stamp> ret=<stamp> val=<id|nil> fresh=<0|1|-> err=<id|-> fs=<stamp|-> fe=<stamp|-> runs=<n> stuck=<0|1> [panic=<1|2>]
+//
+// Outcome kinds of the user function (round 5): err=1 with ek = 1 pointer error (*Err), 2 wrapped (fmt.Errorf("%w")),
+// 3 value-typed error (ErrV), 4 typed-nil error ((*Err)(nil): a non-nil interface around a nil pointer; sf / lc only,
+// where the value returned next to it names the execution); panic=1 with pk = 1 panic(string), 2 panic(error value),
+// 3 runtime.Goexit() (the deferred cleanup runs, the goroutine ends: the call is made on a child goroutine). Every error
+// must come back as THE SAME error value (identity), else err=bad.  ep: which public entry point of the user is called
+// (cacheNode: 0 Take, 1 TakeWithExpire, 2 TakeCtx, 3 TakeWithExpireCtx).  Observed panic=1: the call panicked; panic=2:
+// the call's goroutine was ended by runtime.Goexit.
 //
 // ResourceManager sections may also contain
 //
 //	inject id=<n> key=<k>  => ok              rm.Inject before the goroutines start (a pre-registered resource)
 //	close                  => closed=<ids|-> multi=<ids|-> err=<-|bad>   rm.Close() after all calls returned: which instances were closed
+//	corrupt key=<k>        => ok              (cacheNode) an undecodable cache entry under the key before the goroutines start
 //
 // panic=1 in the op: the user function panics (after its last stamp); panic=1 in the observation: the call
 // panicked (recovered by the harness goroutine).
@@ -25,6 +34,8 @@ package verifc07
 
 import (
 	"bufio"
+	"context"
+	"errors"
 	"fmt"
 	"os"
 	"runtime"
@@ -42,7 +53,29 @@ type Val struct{ ID int }
 
 type Err struct{ ID int }
 
-func (e *Err) Error() string { return fmt.Sprintf("e%d", e.ID) }
+func (e *Err) Error() string {
+	if e == nil {
+		return "e<typed nil>"
+	}
+	return fmt.Sprintf("e%d", e.ID)
+}
+
+// ErrV is a value-typed (comparable, non-pointer) error.
+type ErrV struct{ ID int }
+
+func (e ErrV) Error() string { return fmt.Sprintf("ev%d", e.ID) }
+
+// ErrNotFound is the "no such row" error the cacheNode harness configures its nodes with (NewNode's errNotFound).  A
+// loader scripted with err=1 ek=5 returns it: doTake then writes the not-found placeholder into the cache and every
+// caller of the key gets ErrNotFound without another query - in the model the placeholder is simply the instance that
+// execution created, so a call that got ErrNotFound is printed as val=<id of the execution that reported not-found>
+// (800000 if no execution of its key did).
+var ErrNotFound = errors.New("c07: not found")
+
+// PanicErr is the error value of a pk=2 panic.
+type PanicErr struct{ ID int }
+
+func (e *PanicErr) Error() string { return fmt.Sprintf("c07: scripted panic (error value) of call %d", e.ID) }
 
 type Res struct {
 	ID     int
@@ -55,7 +88,10 @@ type Call struct {
 	text                  string
 	id, g, key            int
 	ex, serr, hold        bool
-	spanic                bool
+	spanic, nilv          bool
+	pk, ek, ep, cx        int
+	errObj                error // the error value this call's function returned (under mu)
+	goexit                bool  // the call's goroutine was ended by runtime.Goexit
 	pre, yield            int
 	inv, ret, fs, fe      int64
 	val, fresh, err       string
@@ -77,7 +113,7 @@ func parse(text string) (*Call, bool) {
 	}
 	return &Call{text: text, id: c.Int("id", -1), g: c.Int("g", 0), key: c.Int("key", 0),
 		ex: c.Int("ex", 0) == 1, serr: c.Int("err", 0) == 1, hold: c.Int("hold", 0) == 1,
-		spanic: c.Int("panic", 0) == 1,
+		spanic: c.Int("panic", 0) == 1, nilv: c.Int("nilv", 0) == 1, pk: c.Int("pk", 1), ek: c.Int("ek", 1), ep: c.Int("ep", c.Int("ex", 0)), cx: c.Int("cx", 0),
 		pre: c.Int("pre", 0), yield: c.Int("yield", 0), val: "nil", fresh: "-", err: "-"}, true
 }
 
@@ -134,6 +170,9 @@ type Target struct {
 	// returned: the value (Val, *Res or nil), fresh ("-" if the API has no such flag, else "0"/"1") and the error.
 	Invoke func(c *Call, fn func() (any, error)) (v any, fresh string, err error)
 	Inject func(key int, res *Res) // nil: not supported
+	// Corrupt (nil: not supported) puts an entry that cannot be decoded under the key before the calls start (cacheNode:
+	// a redis value that is not JSON - processCache deletes it and reports not-found, the row is loaded afresh)
+	Corrupt func(key int)
 	Close  func() error            // nil: not supported
 	Done   func()                  // nil, or releases what the section's object holds (timers, tickers)
 }
@@ -141,6 +180,30 @@ type Target struct {
 func (c *Call) Key() int { return c.key }
 func (c *Call) ID() int  { return c.id }
 func (c *Call) Ex() bool { return c.ex }
+func (c *Call) G() int   { return c.g }
+
+// CX is the kind of context the call passes to a ...Ctx entry point: 0 Background, 1 a deadline far in the future,
+// 2 an already cancelled context (the cache lookup inside the flight fails with context.Canceled: no query, the error
+// goes to everyone who shares the flight; printed err=lk).
+func (c *Call) CX() int { return c.cx }
+
+// EP is the public entry point of the user this call goes through (0 unless the op says ep=<n>).
+func (c *Call) EP() int { return c.ep }
+
+// mkErr is the error value of call c's function (kind ek).
+func mkErr(c *Call) error {
+	switch c.ek {
+	case 5:
+		return ErrNotFound
+	case 2:
+		return fmt.Errorf("c07 wrapped: %w", &Err{c.id})
+	case 3:
+		return ErrV{c.id}
+	case 4:
+		return (*Err)(nil)
+	}
+	return &Err{c.id}
+}
 
 func Spin(n int) {
 	for i := 0; i < n; i++ {
@@ -154,8 +217,9 @@ func RunSection(cfg verifh.Cfg, ops []string, mk func(cfg verifh.Cfg) Target) []
 	if p := cfg.Int("procs", 0); p > 0 {
 		defer runtime.GOMAXPROCS(runtime.GOMAXPROCS(p))
 	}
-	// a call that has not returned after 20 s (60 s thorough) is reported stuck; once a section of this run was
-	// stuck (only ever on a broken tree) the next ones wait 3 s, and WriteTrace stops after 5 stuck sections
+	// a call is reported stuck when it has not returned and the global stamp counter has not moved for 6 s (18 s
+	// thorough), or after 20 s (60 s thorough) in total; once a section of this run was stuck (only ever on a broken
+	// tree) the next ones wait 3 s, and WriteTrace stops after 5 stuck sections
 	timeout := time.Duration(verifh.Scale(20, 60)) * time.Second
 	if stuckSections.Load() > 0 && os.Getenv("VERIF_OPS_IN") == "" {
 		timeout = 3 * time.Second
@@ -164,12 +228,15 @@ func RunSection(cfg verifh.Cfg, ops []string, mk func(cfg verifh.Cfg) Target) []
 	var calls []*Call
 	idx := map[*Call]int{}
 	type injectOp struct{ i, id, key int }
-	var injects []injectOp
+	var injects, corrupts []injectOp
 	closeAt := -1
 	for i, op := range ops {
 		if f := strings.Fields(op); len(f) > 0 && f[0] == "inject" && mode == "rm" {
 			ic := verifh.ParseCfg(op)
 			injects = append(injects, injectOp{i, ic.Int("id", -1), ic.Int("key", 0)})
+			continue
+		} else if len(f) > 0 && f[0] == "corrupt" && mode == "rm" {
+			corrupts = append(corrupts, injectOp{i, 0, verifh.ParseCfg(op).Int("key", 0)})
 			continue
 		} else if len(f) == 1 && f[0] == "close" && mode == "rm" && closeAt < 0 {
 			closeAt = i
@@ -201,6 +268,14 @@ func RunSection(cfg verifh.Cfg, ops []string, mk func(cfg verifh.Cfg) Target) []
 		res := &Res{ID: in.id}
 		allRes = append(allRes, res)
 		tg.Inject(in.key, res)
+		out[in.i] = "ok"
+	}
+	for _, in := range corrupts {
+		if tg.Corrupt == nil {
+			out[in.i] = "unsupported"
+			continue
+		}
+		tg.Corrupt(in.key)
 		out[in.i] = "ok"
 	}
 	heldKeys := map[int]bool{}
@@ -248,11 +323,24 @@ func RunSection(cfg verifh.Cfg, ops []string, mk func(cfg verifh.Cfg) Target) []
 			c.fe = e
 			mu.Unlock()
 			if c.spanic {
+				switch c.pk {
+				case 2:
+					panic(&PanicErr{c.id})
+				case 3:
+					runtime.Goexit()
+				}
 				panic(fmt.Sprintf("c07: scripted panic of call %d", c.id))
+			}
+			var e0 error
+			if c.serr {
+				e0 = mkErr(c)
+				mu.Lock()
+				c.errObj = e0
+				mu.Unlock()
 			}
 			if mode == "rm" {
 				if c.serr {
-					return nil, &Err{c.id}
+					return nil, e0
 				}
 				res := &Res{ID: c.id}
 				mu.Lock()
@@ -261,7 +349,11 @@ func RunSection(cfg verifh.Cfg, ops []string, mk func(cfg verifh.Cfg) Target) []
 				return res, nil
 			}
 			if c.serr {
-				return Val{c.id}, &Err{c.id}
+				return Val{c.id}, e0
+			}
+			if c.nilv {
+				// the zero result (nil, nil) is a result like any other
+				return nil, nil
 			}
 			return Val{c.id}, nil
 		}
@@ -280,16 +372,29 @@ func RunSection(cfg verifh.Cfg, ops []string, mk func(cfg verifh.Cfg) Target) []
 					fresh = "-"
 				)
 				inv := stamp.Add(1)
-				func() {
+				invoke := func() {
+					returned := false
 					defer func() {
-						if p := recover(); p != nil {
+						p := recover()
+						if !returned {
+							// the call ended without returning: a panic (recovered here) or runtime.Goexit (p == nil)
 							mu.Lock()
 							c.panicked = true
+							c.goexit = p == nil
 							mu.Unlock()
 						}
 					}()
 					v, fresh, err = tg.Invoke(c, fn)
-				}()
+					returned = true
+				}
+				if c.spanic && c.pk == 3 {
+					// the function may end its goroutine (runtime.Goexit): the call is made on a goroutine of its own
+					ch := make(chan struct{})
+					go func() { defer close(ch); invoke() }()
+					<-ch
+				} else {
+					invoke()
+				}
 				ret := stamp.Add(1)
 				mu.Lock()
 				c.inv, c.ret, c.fresh, c.done = inv, ret, fresh, true
@@ -303,10 +408,20 @@ func RunSection(cfg verifh.Cfg, ops []string, mk func(cfg verifh.Cfg) Target) []
 				default:
 					c.val = "bad"
 				}
-				if e, ok := err.(*Err); ok {
-					c.err = fmt.Sprint(e.ID)
+				if err == ErrNotFound && mode == "rm" {
+					// the cached not-found placeholder: name the execution that reported not-found for this key
+					c.val = "800000"
+					for _, d := range calls {
+						if d.key == c.key && d.ek == 5 && d.serr && !d.spanic && d.runs > 0 {
+							c.val = fmt.Sprint(d.id)
+							break
+						}
+					}
+				} else if err == context.Canceled && mode == "rm" {
+					// the lookup inside the flight failed (cancelled context of the flight's leader)
+					c.err = "lk"
 				} else if err != nil {
-					c.err = "bad"
+					c.err = errName(err, v, calls)
 				}
 				mu.Unlock()
 				if c.free {
@@ -315,18 +430,36 @@ func RunSection(cfg verifh.Cfg, ops []string, mk func(cfg verifh.Cfg) Target) []
 			}
 		}(byG[g])
 	}
-	waitTimeout := func(wg *sync.WaitGroup) bool {
+	// a wait ends when the group is done, when the global stamp counter has not moved for `quiet` (nothing is
+	// making progress: every unfinished call is blocked), or after `timeout` in total
+	waitTimeout := func(wg *sync.WaitGroup, quiet time.Duration) bool {
 		ch := make(chan struct{})
 		go func() { wg.Wait(); close(ch) }()
-		select {
-		case <-ch:
-			return true
-		case <-time.After(timeout):
-			return false
+		deadline := time.After(timeout)
+		tick := time.NewTicker(200 * time.Millisecond)
+		defer tick.Stop()
+		last, lastMove := stamp.Load(), time.Now()
+		for {
+			select {
+			case <-ch:
+				return true
+			case <-deadline:
+				return false
+			case <-tick.C:
+				if cur := stamp.Load(); cur != last {
+					last, lastMove = cur, time.Now()
+				} else if time.Since(lastMove) >= quiet {
+					return false
+				}
+			}
 		}
 	}
+	quiet := time.Duration(verifh.Scale(6, 18)) * time.Second
+	if quiet > timeout {
+		quiet = timeout
+	}
 	close(start)
-	freeOk := waitTimeout(&freeWg)
+	freeOk := waitTimeout(&freeWg, quiet)
 	if !freeOk {
 		mu.Lock()
 		for _, c := range calls {
@@ -337,7 +470,11 @@ func RunSection(cfg verifh.Cfg, ops []string, mk func(cfg verifh.Cfg) Target) []
 		mu.Unlock()
 	}
 	close(release)
-	allOk := waitTimeout(&allWg)
+	if !freeOk && quiet > 2*time.Second {
+		// (what was blocked before the release and does not move within 2 s after it stays blocked)
+		quiet = 2 * time.Second
+	}
+	allOk := waitTimeout(&allWg, quiet)
 	if tg.Done != nil && allOk {
 		defer tg.Done()
 	}
@@ -409,12 +546,38 @@ func RunSection(cfg verifh.Cfg, ops []string, mk func(cfg verifh.Cfg) Target) []
 		}
 		out[idx[c]] = fmt.Sprintf("inv=%d ret=%d val=%s fresh=%s err=%s fs=%s fe=%s runs=%d stuck=%d",
 			c.inv, c.ret, c.val, c.fresh, c.err, dash(c.fs), dash(c.fe), c.runs, st)
-		if c.panicked {
+		if c.panicked && c.goexit {
+			out[idx[c]] += " panic=2"
+		} else if c.panicked {
 			out[idx[c]] += " panic=1"
 		}
 	}
 	_ = allOk
 	return out
+}
+
+// errName names the execution an error value came from: the id inside it, checked to be THE error value that
+// execution's function returned (identity: the same pointer / the same comparable value, not a copy, not unwrapped);
+// a typed-nil error carries no id and is attributed through the value returned next to it.  Called under mu.
+func errName(err error, v any, calls []*Call) string {
+	id := -1
+	var pe *Err
+	var ve ErrV
+	if e, ok := err.(*Err); ok && e == nil {
+		if x, ok := v.(Val); ok {
+			id = x.ID
+		}
+	} else if errors.As(err, &pe) && pe != nil {
+		id = pe.ID
+	} else if errors.As(err, &ve) {
+		id = ve.ID
+	}
+	for _, c := range calls {
+		if c.id == id && c.errObj != nil && c.errObj == err {
+			return fmt.Sprint(id)
+		}
+	}
+	return "bad"
 }
 
 // ---------------------------------------------------------------- generator
@@ -476,6 +639,16 @@ func Gen(r *verifh.Rng, nsec int, via string) []verifh.Section {
 				}
 			}
 		}
+		if via == "cacheNode.Take" && r.Chance(1, 4) {
+			// entries that cannot be decoded are in the cache before the calls start (processCache: delete, reload)
+			for ob := 0; ob < objs; ob++ {
+				for key := 0; key < k; key++ {
+					if r.Chance(1, 2) {
+						ops = append(ops, fmt.Sprintf("corrupt key=%d", 100*ob+key))
+					}
+				}
+			}
+		}
 		for gi := 0; gi < g; gi++ {
 			n := r.Range(1, verifh.Scale(6, 10))
 			holder := holdSec && gi == 0
@@ -529,17 +702,55 @@ func Gen(r *verifh.Rng, nsec int, via string) []verifh.Section {
 						ex = 1
 					}
 				}
+				ep := -1
+				if via == "cacheNode.Take" {
+					// all four public entry points into doTake: 0 Take, 1 TakeWithExpire, 2 TakeCtx, 3 TakeWithExpireCtx
+					ep = r.Intn(4)
+					ex = ep % 2
+				}
 				op := fmt.Sprintf("call id=%d g=%d key=%d ex=%d pre=%d yield=%d err=%d hold=%d",
 					id, gi, key, ex, pre, yield, serr, hold)
 				if panicSec && hold == 0 && r.Chance(1, 4) {
-					op += " panic=1"
+					// how the function ends abnormally: panic(string), panic(error value), runtime.Goexit()
+					op += fmt.Sprintf(" panic=1 pk=%d", r.Pick(1, 2, 3))
+				}
+				if serr == 1 {
+					// the class of the error value: pointer, wrapped, value-typed, typed nil (only where a value next to
+					// the error names the execution: sf / lc)
+					ek := r.Pick(1, 1, 2, 3)
+					if mode != "rm" && r.Chance(1, 5) {
+						ek = 4
+					}
+					if via == "cacheNode.Take" && r.Chance(1, 3) {
+						// the loader reports "no such row": negative caching (setCacheWithNotFound, the placeholder)
+						ek = 5
+					}
+					op += fmt.Sprintf(" ek=%d", ek)
+				}
+				if mode != "rm" && serr == 0 && !strings.Contains(op, "panic=1") && r.Chance(1, 8) {
+					// the function returns (nil, nil): a value like any other (sf: handed to the joiners, lc: own result)
+					op += " nilv=1"
+				}
+				if ep >= 0 {
+					op += fmt.Sprintf(" ep=%d", ep)
+				}
+				if ep >= 2 {
+					// the context handed to TakeCtx / TakeWithExpireCtx: Background, far deadline, already cancelled
+					op += fmt.Sprintf(" cx=%d", r.Pick(0, 1, 1, 2))
 				}
 				ops = append(ops, op)
 			}
 		}
 		cfg := fmt.Sprintf("mode=%s g=%d k=%d procs=%d objs=%d", mode, g, k, procs, objs)
 		if via != "" {
-			cfg += fmt.Sprintf(" opt=%d", r.Pick(0, 0, 1, 2))
+			// the constructor's options: 0 none, 1 / 2 present, 3 zero-valued, 4 negative, 5 empty / swapped order (see the targets)
+			cfg += fmt.Sprintf(" opt=%d", r.Pick(0, 0, 1, 2, 3, 4, 5))
+		}
+		if via == "cacheNode.Take" {
+			// dst=1: every goroutine takes into ONE destination variable, call after call, and overwrites it as soon as a
+			// Take has returned (a caller may do with its own variable what it likes once its call is over): what a
+			// sharer of the flight is handed must be a snapshot made inside the execution, not the leader's memory
+			cfg += fmt.Sprintf(" dst=%d", r.Pick(1, 1, 0))
 		}
 		if via != "" {
 			cfg += " via=" + via
